@@ -147,12 +147,24 @@ def observe(c, rid, rng):
             reject_ok = False
         except ValueError:
             pass
-    return {"id": rid, "cfg": {"dims": list(dims), "r2c": c["r2c"], "fwd": c["fwd"], "inplace": c["inplace"],
+    # value semantics (spec/ValueSemantics.tla): results held across later calls, caller arrays overwritten in place
+    import valuesem
+    vals = {"c1": rand_in(), "c2": rand_in(), "c3": rand_in()}
+    vs = []
+    for h in VS_HISTS:
+        vs = valuesem.replay(h, vals, w.call, lambda a: ref_dft(a.astype(np.complex128) if not in_real else a, c), tol=tol)
+        if vs:
+            break
+    return {"id": rid, "vs_ok": not vs, "vs_clause": vs[0][0] if vs else "",
+            "cfg": {"dims": list(dims), "r2c": c["r2c"], "fwd": c["fwd"], "inplace": c["inplace"],
                                "bf": c["bf"], "nt": nt},
             "plan": plan, "w": wmap, "r": rmap, "fin": fin, "fout": fout,
             "in_shape": list(ish), "out_shape": list(osh),
             "num_ok": num_ok, "roundtrip_ok": roundtrip_ok, "repeat_ok": repeat_ok, "reject_ok": reject_ok,
             "max_rel_err": max(errs)}
+
+
+VS_HISTS = []
 
 
 def all_configs(maxdim, nts, four_d):
@@ -193,6 +205,8 @@ def main():
         space = all_configs(7, (1, 2, 3, 5), True)
         rng_py.shuffle(space)
     np_rng = np.random.default_rng(ck.seed)
+    import valuesem
+    VS_HISTS[:] = valuesem.model_and_histories(ck, want=4 if ck.tier == "quick" else 20)
     recs = []
     for k, c in enumerate(space):
         rec = observe(c, k + 1, np_rng)
@@ -210,8 +224,10 @@ def main():
         rc = byid[rid]
         c = rc["cfg"]
         site = "plan:r2c=%d,fwd=%d,inplace=%d,bf=%d:%s" % (c["r2c"], c["fwd"], c["inplace"], c["bf"], inv)
+        if inv == "ValueSemanticsOK":
+            site += ":" + rc.get("vs_clause", "")
         ck.violation(site, {"invariant": inv, "cfg": c, "plan": rc["plan"], "max_rel_err": rc["max_rel_err"],
-                            "verdicts": {k: rc[k] for k in ("num_ok", "roundtrip_ok", "repeat_ok", "reject_ok")}},
+                            "verdicts": {k: rc[k] for k in ("num_ok", "roundtrip_ok", "repeat_ok", "reject_ok", "vs_ok")}},
                      replay={"cfg": c})
     if res["drift"]:
         ck.notes.append("model drift (layout differs from the transcription in FFTLayout.tla, results still right): %d plans, e.g. %s"
